@@ -72,18 +72,18 @@ type Violation struct {
 
 // Result accumulates what a run observed. All methods are safe for concurrent use.
 type Result struct {
-	mu          sync.Mutex
-	evals       int64
-	nontrivial  map[uint64]struct{}
-	samples     []interface{}
-	maxSamples  int
-	counters    map[string]int64
-	sets        map[string]map[string]struct{}
-	violations  []Violation
-	violBySig   map[string]int
-	Notes       []string
-	Exhaustive  bool
-	Subspaces   []string
+	mu           sync.Mutex
+	evals        int64
+	nontrivial   map[uint64]struct{}
+	samples      []interface{}
+	maxSamples   int
+	counters     map[string]int64
+	sets         map[string]map[string]struct{}
+	violations   []Violation
+	violBySig    map[string]int
+	Notes        []string
+	Exhaustive   bool
+	Subspaces    []string
 	Inconclusive []string
 }
 
